@@ -33,16 +33,16 @@ Create(u, a0, a1) ==
    /\ last' = [op |-> "create", a0 |-> a0, a1 |-> a1]
    /\ Step([op |-> "create", u |-> u, a0 |-> a0, a1 |-> a1])
 
-\* dir = 0: sell c0 for c1
+\* dir = 0: sell c0 for c1; the burned part of the payment never reaches the pool
 Sell(u, dir, in) ==
    /\ ~NoPool
    /\ LET rIn == IF dir = 0 THEN r0 ELSE r1
           rOut == IF dir = 0 THEN r1 ELSE r0
-          out == BuyForSell(rIn, rOut, in)
-      IN /\ out # NoTrade
-         /\ r0' = IF dir = 0 THEN r0 ++ in ELSE r0 -- out
-         /\ r1' = IF dir = 0 THEN r1 -- out ELSE r1 ++ in
-         /\ last' = [op |-> "sell", dir |-> dir, in |-> in, out |-> out]
+          t == SellTrade(rIn, rOut, in)
+      IN /\ t.ok
+         /\ r0' = IF dir = 0 THEN r0 ++ t.net ELSE r0 -- t.out
+         /\ r1' = IF dir = 0 THEN r1 -- t.out ELSE r1 ++ t.net
+         /\ last' = [op |-> "sell", dir |-> dir, in |-> in, out |-> t.out, burned |-> t.burned]
    /\ Step([op |-> "sell", u |-> u, dir |-> dir, in |-> in])
    /\ UNCHANGED <<sup, lp>>
 
@@ -50,11 +50,11 @@ Buy(u, dir, out) ==
    /\ ~NoPool
    /\ LET rIn == IF dir = 0 THEN r0 ELSE r1
           rOut == IF dir = 0 THEN r1 ELSE r0
-          in == SellForBuy(rIn, rOut, out)
-      IN /\ in # NoTrade
-         /\ r0' = IF dir = 0 THEN r0 ++ in ELSE r0 -- out
-         /\ r1' = IF dir = 0 THEN r1 -- out ELSE r1 ++ in
-         /\ last' = [op |-> "buy", dir |-> dir, in |-> in, out |-> out]
+          t == BuyTrade(rIn, rOut, out)
+      IN /\ t.ok
+         /\ r0' = IF dir = 0 THEN r0 ++ t.net ELSE r0 -- out
+         /\ r1' = IF dir = 0 THEN r1 -- out ELSE r1 ++ t.net
+         /\ last' = [op |-> "buy", dir |-> dir, in |-> t.pay, out |-> out, burned |-> t.burned]
    /\ Step([op |-> "buy", u |-> u, dir |-> dir, out |-> out])
    /\ UNCHANGED <<sup, lp>>
 
@@ -103,14 +103,16 @@ AddThenRemoveNoGain ==
 \* selling and selling the proceeds back never returns more than was sold
 RoundTripNoGain ==
    NoPool \/ ~Small \/ \A x \in TradeAmounts :
-      LET out == BuyForSell(r0, r1, x) IN
-      out # NoTrade =>
-         LET back == BuyForSell(r1 -- out, r0 ++ x, out) IN back = NoTrade \/ back \preceq x
+      LET t == SellTrade(r0, r1, x) IN
+      t.ok =>
+         LET back == SellTrade(r1 -- t.out, r0 ++ t.net, t.out) IN ~back.ok \/ back.out \preceq x
 \* C15: buying `out` never costs less than what selling would need for it; a quote for selling x is honoured by an equal-or-better buy
 BuyCostsAtLeastSell ==
    NoPool \/ ~Small \/ \A x \in TradeAmounts :
-      LET out == BuyForSell(r0, r1, x) IN
-      out # NoTrade => LET need == SellForBuy(r0, r1, out) IN need # NoTrade /\ need \preceq (x ++ One)
+      LET t == SellTrade(r0, r1, x) IN
+      t.ok => LET b == BuyTrade(r0, r1, t.out) IN b.ok /\ b.pay \preceq (x ++ One)
+\* what a trader pays is what the pool receives plus what is burned: nothing else leaves the trader
+PaymentSplit == last.op \in {"sell", "buy"} => Zero \prec last.burned /\ last.burned \prec last.in
 
 View == <<r0, r1, sup, lp, last, steps>>
 Dump == (steps = MaxSteps) => PrintT("SCN " \o ToJson(scn))
